@@ -627,3 +627,109 @@ def _unit_radicand(e):
         if isinstance(r, ast.BinOp) and isinstance(r.op, ast.Pow) and isinstance(r.right, ast.Constant) and r.right.value == 2:
             return r.left
     return None
+
+
+# ================================================================= T3 precision class vs tolerance
+RULE_T3 = ('T3: a decision threshold must not be tighter than the precision class of the compared value. A value obtained as '
+           'sqrt(eigenvalues(...)) (singular values through a Gram matrix, sqrt of a spectrum) carries an absolute error of about '
+           'sqrt(machine eps) ~ 1e-8 wherever the exact eigenvalue is 0 (rank-deficient input); its tolerance at the default parameters '
+           'must be at least 1e-7. Values from SVD / norms / eigenvalues themselves are in the eps class and are not constrained here.')
+
+_EIG = {'numpy.linalg.eigvalsh', 'numpy.linalg.eigvals', 'numpy.linalg.eigh', 'numpy.linalg.eig', 'scipy.linalg.eigvalsh',
+        'scipy.linalg.eigh', 'torch.linalg.eigvalsh', 'torch.linalg.eigh', 'torch.linalg.eigvals'}
+_SQRT = {'numpy.sqrt', 'torch.sqrt', 'math.sqrt', 'numpy.emath.sqrt'}
+SQRT_EPS_CLASS = 1e-7
+
+
+def _sqrt_of_spectrum(proj, m, scope, e):
+    """a `sqrt(X)` in the provenance of e whose X is computed from an eigenvalue routine: returns the sqrt call or None"""
+    for (x, m2, f2) in _closure_exprs(proj, m, scope, e, 6, set()):
+        for n in walk_pruned(x, _intlike_node):
+            if isinstance(n, ast.Call):
+                r = resolve_callee(proj, m2, n)
+                if r.kind == 'external' and r.qual in _SQRT and n.args:
+                    for (y, m3, f3) in _closure_exprs(proj, m2, f2, n.args[0], 4, set()):
+                        for k in walk_pruned(y, _intlike_node):
+                            if isinstance(k, ast.Call):
+                                r2 = resolve_callee(proj, m3, k)
+                                if r2.kind == 'external' and r2.qual in _EIG:
+                                    return n
+    return None
+
+
+def t3(proj, rep, decision_functions):
+    rep.rule('T3', RULE_T3)
+    n = 0
+    for qual in decision_functions:
+        fi = proj.func(qual)
+        m = fi.module
+        env = _default_env(fi)
+        for scope in _functions_in(fi.node):
+            for node in own_nodes(scope):
+                if not isinstance(node, ast.Compare):
+                    continue
+                operands = [node.left] + list(node.comparators)
+                for a, op, b2 in zip(operands, node.ops, operands[1:]):
+                    if not isinstance(op, (ast.Lt, ast.LtE, ast.Gt, ast.GtE)):
+                        continue
+                    for val, thr in ((a, b2), (b2, a)):
+                        val2, thr2, how = _through_closure(proj, m, scope, val, thr)
+                        if _int_literal(thr2) or is_float_numeric(proj, m, scope, val2) is None:
+                            continue
+                        if is_float_numeric(proj, m, scope, thr2) is not None:
+                            continue
+                        tv = _num_eval(thr2, env)
+                        bl = _boundary_literal(thr2)
+                        if tv is None or bl is None:
+                            continue
+                        n += 1
+                        tol = abs(tv - bl)
+                        sq = _sqrt_of_spectrum(proj, m, scope, val2)
+                        if sq is not None and tol < SQRT_EPS_CLASS:
+                            rep.violation('T3', qual, f'`{ast.unparse(node)[:80]}`: the compared value passes through `{ast.unparse(sq)[:70]}` '
+                                          f'(precision ~1e-8 for rank-deficient input) but the tolerance at the defaults is {tol:.3g}: legitimate '
+                                          f'boundary inputs (e.g. pure product states) fall on the wrong side', m, node)
+                        else:
+                            rep.ok('T3', qual, f'`{ast.unparse(node)[:60]}`: tolerance {tol:.3g}, value in the '
+                                   f'{"sqrt(eps)" if sq is not None else "eps"} class', m, node)
+    rep.count('T3.sites', n)
+    return n
+
+
+# ================================================================= SV1 SDP feasibility verdict
+RULE_SV1 = ('SV1: the verdict of a feasibility SDP (constant objective) is "feasible unless the solver reports infeasibility": '
+            '`not np.isinf(prob.value)`. Testing `prob.status` for equality with OPTIMAL alone answers "no extension / entangled" whenever '
+            'the solver stops with optimal_inaccurate on a feasible (separable) input.')
+
+
+def sv1(proj, rep, modules):
+    rep.rule('SV1', RULE_SV1)
+    n = 0
+    for mq in modules:
+        m = proj.mod(mq)
+        rep.touch(m)
+        for fi in [f for f in proj.funcs.values() if f.module is m]:
+            solves = [c for c in own_nodes(fi.node) if isinstance(c, ast.Call) and isinstance(c.func, ast.Attribute) and c.func.attr == 'solve'
+                      and isinstance(c.func.value, ast.Name)]
+            if not solves:
+                continue
+            probs = {c.func.value.id for c in solves}
+            for x in own_nodes(fi.node):
+                if isinstance(x, ast.Compare) and isinstance(x.left, ast.Attribute) and x.left.attr == 'status' \
+                        and isinstance(x.left.value, ast.Name) and x.left.value.id in probs:
+                    n += 1
+                    txt = ast.unparse(x)
+                    accepts = [ast.unparse(c) for c in x.comparators]
+                    if isinstance(x.ops[0], (ast.Eq, ast.Is)) or (isinstance(x.ops[0], ast.In) and 'INACCURATE' not in txt.upper()):
+                        rep.violation('SV1', fi.qual, f'`{txt}`: only {accepts} counts as feasible; an `optimal_inaccurate` stop on a feasible input is '
+                                      f'reported as infeasible (a separable state is declared entangled)', m, x)
+                    else:
+                        rep.undecided('SV1', fi.qual, f'`{txt}`: status test not understood', m, x)
+                        n -= 1
+                elif isinstance(x, ast.Call) and isinstance(x.func, ast.Attribute) and x.func.attr == 'isinf' and x.args \
+                        and isinstance(x.args[0], ast.Attribute) and x.args[0].attr == 'value' and isinstance(x.args[0].value, ast.Name) \
+                        and x.args[0].value.id in probs:
+                    n += 1
+                    rep.ok('SV1', fi.qual, f'`{ast.unparse(x)}`: feasible unless the solver reports +-inf', m, x)
+    rep.count('SV1.sites', n)
+    return n
